@@ -708,6 +708,8 @@ class Interp:
             r = self.env.class_getattr(self, o, name)
             if r is not NotImplemented:
                 return r
+            if name == '__new__':
+                return EnvFunc('object.__new__', lambda it2, a, k: Obj(a[0]))
             raise_py('AttributeError', name)
         if isinstance(o, SuperProxy):
             mro = o.selfv.cls.mro() if isinstance(o.selfv, Obj) else o.cls.mro()
@@ -740,6 +742,8 @@ class Interp:
 
     def bind_attr(self, o, v):
         if isinstance(v, FuncVal):
+            return BoundMethod(o, v)
+        if isinstance(v, EnvFunc) and v.name == 'MutableMapping.update':
             return BoundMethod(o, v)
         if isinstance(v, PropertyVal):
             return self.call(v.fget, [o], {})
